@@ -96,7 +96,8 @@ namespace GV.Flat
 open GV.Ctrl
 
 theorem cnt_ite (c : Nat) (t e : Stmt) : cnt (.ite c t e) = 1 + cnt e := by
-  simp only [cnt, spineLen, spineDefault]; omega
+  simp only [cnt, spineLen, spineDefault]
+  by_cases h : spineDefault e = true <;> simp [h] <;> omega
 
 theorem good_simple (p : Simple) (m : Nat) :
     m ≤ (simpleCode p m).2 ∧ Good (labels (simpleCode p m).1) (fun x => m ≤ x ∧ x < (simpleCode p m).2) := by
@@ -105,11 +106,13 @@ theorem good_simple (p : Simple) (m : Nat) :
   | act a => exact ⟨Nat.le_refl _, good_nil _⟩
   | call f => exact ⟨Nat.le_succ _, good_single m _ ⟨Nat.le_refl _, Nat.lt_succ_self _⟩⟩
 
-/-- none-mode facts, abbreviated -/
-def NoneOK (ctx : Ctx) (s : Stmt) (n : Nat) : Prop :=
-  n ≤ (flatM ctx s none n).2 ∧ Good (labels (flatM ctx s none n).1) (fun x => n ≤ x ∧ x < (flatM ctx s none n).2)
+theorem noneOK_of (s : Stmt) (h : LabelsOK s) (ctx : Ctx) (n : Nat) :
+    n ≤ (flatM ctx s none n).2 ∧ Good (labels (flatM ctx s none n).1) (fun x => n ≤ x ∧ x < (flatM ctx s none n).2) :=
+  h ctx none n trivial
 
-theorem noneOK_of (s : Stmt) (h : LabelsOK s) (ctx : Ctx) (n : Nat) : NoneOK ctx s n := h ctx none n trivial
+theorem loop_labels (n : Nat) (cc B P : List Instr) (hcc : labels cc = []) :
+    labels (.case n :: cc ++ B ++ P ++ [.case (n + 1)]) = [n] ++ (labels B ++ (labels P ++ [n + 1])) := by
+  simp [labels_append, labels_case, labels_nil, hcc]
 
 theorem labelsOK (s : Stmt) : LabelsOK s := by
   induction s with
@@ -140,58 +143,51 @@ theorem labelsOK (s : Stmt) : LabelsOK s := by
   | seq s t ihs iht =>
     refine labelsOK_default _ (fun ctx n => ?_) (fun _ _ _ _ _ => rfl) rfl
     simp only [flatM, GV.Flat.pre]
-    have h1 := noneOK_of s ihs ctx n
-    have h2 := noneOK_of t iht ctx (flatM ctx s none n).2
-    refine ⟨Nat.le_trans h1.1 h2.1, ?_⟩
+    obtain ⟨le1, g1⟩ := noneOK_of s ihs ctx n
+    obtain ⟨le2, g2⟩ := noneOK_of t iht ctx (flatM ctx s none n).2
+    refine ⟨Nat.le_trans le1 le2, ?_⟩
     rw [labels_append]
-    exact good_append _ h1.2 h2.2 (by intro x y a b; omega) (by intro x a; omega) (by intro x a; omega)
+    exact good_append _ g1 g2 (by intro x y a b; omega) (by intro x a; omega) (by intro x a; omega)
   | sw l b ih =>
     refine labelsOK_default _ (fun ctx n => ?_) (fun ctx off en i n => ?_) rfl
     · simp only [flatM]
       split
       · simp only [GV.Flat.pre]
-        have h1 := noneOK_of b ih (ctx.enterSw l n) (n + 1)
+        obtain ⟨le1, g1⟩ := noneOK_of b ih (ctx.enterSw l n) (n + 1)
         refine ⟨by omega, ?_⟩
         rw [labels_append, labels_case, labels_nil]
-        exact good_append _ h1.2 (good_single n (fun x => x = n) rfl)
+        exact good_append _ g1 (good_single n (fun x => x = n) rfl)
           (by intro x y a b; omega) (by intro x a; omega) (by intro x a; omega)
       · exact ⟨Nat.le_refl _, good_nil _⟩
     · simp only [flatM]; split <;> rfl
   | loop l c p b ih =>
     refine labelsOK_default _ (fun ctx n => ?_) (fun ctx off en i n => ?_) rfl
-    · simp only [flatM]
-      split
-      · simp only [GV.Flat.pre]
-        have h1 := noneOK_of b ih (ctx.enterLoop l (n + 1) n p) (n + 2)
-        have hc : labels (match c with | none => ([] : List Instr) | some c => [.jmpIfNot c (n + 1)]) = [] := by
-          cases c <;> rfl
-        have hp := good_simple p (flatM (ctx.enterLoop l (n + 1) n p) b none (n + 2)).2
-        by_cases hl : lastIsBranch b = true
-        · simp only [hl, if_true]
-          refine ⟨by omega, ?_⟩
-          rw [labels_case, labels_append, labels_append, labels_append, hc, labels_nil, labels_case, labels_nil]
-          have := good_append (l1 := [n]) (fun x => n ≤ x ∧ x < (flatM (ctx.enterLoop l (n + 1) n p) b none (n + 2)).2)
-            (good_single n (fun x => x = n) rfl)
-            (good_append (fun x => n + 1 ≤ x ∧ x < (flatM (ctx.enterLoop l (n + 1) n p) b none (n + 2)).2) h1.2
-              (good_single (n + 1) (fun x => x = n + 1) rfl)
-              (by intro x y a b; omega) (by intro x a; omega) (by intro x a; omega))
-            (by intro x y a b; omega) (by intro x a; omega) (by intro x a; omega)
-          simpa using this
-        · simp only [hl, Bool.false_eq_true, if_false]
-          refine ⟨by omega, ?_⟩
-          rw [labels_case, labels_append, labels_append, labels_append, labels_append, hc, labels_jmp, labels_nil,
-            labels_case, labels_nil]
-          have := good_append (l1 := [n]) (fun x => n ≤ x ∧ x < (simpleCode p (flatM (ctx.enterLoop l (n + 1) n p) b none (n + 2)).2).2)
-            (good_single n (fun x => x = n) rfl)
-            (good_append (fun x => n + 1 ≤ x ∧ x < (simpleCode p (flatM (ctx.enterLoop l (n + 1) n p) b none (n + 2)).2).2) h1.2
-              (good_append (fun x => n + 1 = x ∨ ((flatM (ctx.enterLoop l (n + 1) n p) b none (n + 2)).2 ≤ x ∧
-                  x < (simpleCode p (flatM (ctx.enterLoop l (n + 1) n p) b none (n + 2)).2).2)) hp.2
-                (good_single (n + 1) (fun x => x = n + 1) rfl)
-                (by intro x y a b; omega) (by intro x a; omega) (by intro x a; omega))
-              (by intro x y a b; omega) (by intro x a; omega) (by intro x a; omega))
-            (by intro x y a b; omega) (by intro x a; omega) (by intro x a; omega)
-          simpa using this
-      · exact ⟨Nat.le_refl _, good_nil _⟩
+    · obtain ⟨le1, g1⟩ := noneOK_of b ih (ctx.enterLoop l (n + 1) n p) (n + 2)
+      obtain ⟨lep, gp⟩ := good_simple p (flatM (ctx.enterLoop l (n + 1) n p) b none (n + 2)).2
+      rcases c with _ | cc <;> simp only [flatM] <;> split
+      all_goals first
+        | exact ⟨Nat.le_refl _, good_nil _⟩
+        | (simp only [GV.Flat.pre]
+           by_cases hl : lastIsBranch b = true
+           · simp only [hl, if_true]
+             refine ⟨by omega, ?_⟩
+             rw [loop_labels n _ _ _ (by rfl), labels_nil, List.nil_append]
+             exact good_append _ (good_single n (fun x => x = n) rfl)
+               (good_append (fun x => n + 1 ≤ x ∧ x < (flatM (ctx.enterLoop l (n + 1) n p) b none (n + 2)).2) g1
+                 (good_single (n + 1) (fun x => x = n + 1) rfl)
+                 (by intro x y a b; omega) (by intro x a; omega) (by intro x a; omega))
+               (by intro x y a b; omega) (by intro x a; omega) (by intro x a; omega)
+           · simp only [hl, Bool.false_eq_true, if_false]
+             refine ⟨by omega, ?_⟩
+             rw [loop_labels n _ _ _ (by rfl), labels_append, labels_jmp, labels_nil, List.append_nil]
+             exact good_append _ (good_single n (fun x => x = n) rfl)
+               (good_append (fun x => n + 1 ≤ x ∧ x < (simpleCode p (flatM (ctx.enterLoop l (n + 1) n p) b none (n + 2)).2).2) g1
+                 (good_append (fun x => n + 1 = x ∨ ((flatM (ctx.enterLoop l (n + 1) n p) b none (n + 2)).2 ≤ x ∧
+                     x < (simpleCode p (flatM (ctx.enterLoop l (n + 1) n p) b none (n + 2)).2).2)) gp
+                   (good_single (n + 1) (fun x => x = n + 1) rfl)
+                   (by intro x y a b; omega) (by intro x a; omega) (by intro x a; omega))
+                 (by intro x y a b; omega) (by intro x a; omega) (by intro x a; omega))
+               (by intro x y a b; omega) (by intro x a; omega) (by intro x a; omega))
     · simp only [flatM]; split <;> rfl
   | ite c t e iht ihe =>
     intro ctx m n hp
@@ -200,42 +196,46 @@ theorem labelsOK (s : Stmt) : LabelsOK s := by
       obtain ⟨off, en, i⟩ := q
       simp only [Pre, cnt_ite] at hp
       simp only [flatM]
-      have h1 := noneOK_of t iht ctx n
-      have h2 := ihe ctx (some (off, en, i + 1)) (flatM ctx t none n).2 (by simp only [Pre]; omega)
-      refine ⟨Nat.le_trans h1.1 h2.1, ?_⟩
-      rw [labels_case, labels_append, labels_append, labels_chainJmp, List.nil_append]
-      have := good_append (l1 := [off + i])
-        (Where (.ite c t e) (some (off, en, i)) n (flatM ctx e (some (off, en, i + 1)) (flatM ctx t none n).2).2)
-        (good_single (off + i) (fun x => x = off + i) rfl)
+      obtain ⟨le1, g1⟩ := noneOK_of t iht ctx n
+      obtain ⟨le2, g2⟩ := ihe ctx (some (off, en, i + 1)) (flatM ctx t none n).2 (by simp only [Pre]; omega)
+      refine ⟨Nat.le_trans le1 le2, ?_⟩
+      have heq : labels (.case (off + i) :: (flatM ctx t none n).1 ++ chainJmp en t e ++
+            (flatM ctx e (some (off, en, i + 1)) (flatM ctx t none n).2).1) =
+          [off + i] ++ (labels (flatM ctx t none n).1 ++ labels (flatM ctx e (some (off, en, i + 1)) (flatM ctx t none n).2).1) := by
+        simp [labels_append, labels_case, labels_chainJmp]
+      rw [heq]
+      exact good_append _ (good_single (off + i) (fun x => x = off + i) rfl)
         (good_append (fun x => (off + i + 1 ≤ x ∧ x < off + i + 1 + cnt e) ∨
-            (n ≤ x ∧ x < (flatM ctx e (some (off, en, i + 1)) (flatM ctx t none n).2).2)) h1.2 h2.2
+            (n ≤ x ∧ x < (flatM ctx e (some (off, en, i + 1)) (flatM ctx t none n).2).2)) g1 g2
           (by intro x y a b; simp only [Where] at b; omega)
           (by intro x a; omega)
           (by intro x a; simp only [Where] at a; omega))
         (by intro x y a b; omega)
         (by intro x a; simp only [Where, cnt_ite]; omega)
         (by intro x a; simp only [Where, cnt_ite]; omega)
-      simpa using this
     | none =>
       simp only [flatM]
       split
       · have hen : n + spineLen (.ite c t e) + (if spineDefault e then 1 else 0) = n + 1 + cnt e := by
           simp only [spineLen, cnt]; omega
         rw [hen]
-        have h1 := noneOK_of t iht ctx (n + 1 + cnt e + 1)
-        have h2 := ihe ctx (some (n, n + 1 + cnt e, 1)) (flatM ctx t none (n + 1 + cnt e + 1)).2
+        obtain ⟨le1, g1⟩ := noneOK_of t iht ctx (n + 1 + cnt e + 1)
+        obtain ⟨le2, g2⟩ := ihe ctx (some (n, n + 1 + cnt e, 1)) (flatM ctx t none (n + 1 + cnt e + 1)).2
           (by simp only [Pre]; omega)
         refine ⟨by omega, ?_⟩
-        rw [labels_append, labels_dispatch, List.nil_append, labels_case, labels_append, labels_append, labels_chainJmp,
-          List.nil_append, labels_append, labels_case, labels_nil]
-        have := good_append (l1 := [n + 0])
-          (Where (.ite c t e) none n (flatM ctx e (some (n, n + 1 + cnt e, 1)) (flatM ctx t none (n + 1 + cnt e + 1)).2).2)
-          (good_single (n + 0) (fun x => x = n) (by omega))
+        have heq : labels (dispatch n (.ite c t e) 0 ++ .case (n + 0) :: (flatM ctx t none (n + 1 + cnt e + 1)).1 ++
+              chainJmp (n + 1 + cnt e) t e ++
+              (flatM ctx e (some (n, n + 1 + cnt e, 1)) (flatM ctx t none (n + 1 + cnt e + 1)).2).1 ++ [.case (n + 1 + cnt e)]) =
+            [n] ++ (labels (flatM ctx t none (n + 1 + cnt e + 1)).1 ++
+              (labels (flatM ctx e (some (n, n + 1 + cnt e, 1)) (flatM ctx t none (n + 1 + cnt e + 1)).2).1 ++ [n + 1 + cnt e])) := by
+          simp [labels_append, labels_case, labels_chainJmp, labels_dispatch, labels_nil]
+        rw [heq]
+        exact good_append _ (good_single n (fun x => x = n) rfl)
           (good_append (fun x => n + 1 ≤ x ∧ x < (flatM ctx e (some (n, n + 1 + cnt e, 1)) (flatM ctx t none (n + 1 + cnt e + 1)).2).2)
-            h1.2
+            g1
             (good_append (fun x => (n + 1 ≤ x ∧ x ≤ n + 1 + cnt e) ∨ ((flatM ctx t none (n + 1 + cnt e + 1)).2 ≤ x ∧
                 x < (flatM ctx e (some (n, n + 1 + cnt e, 1)) (flatM ctx t none (n + 1 + cnt e + 1)).2).2))
-              h2.2 (good_single (n + 1 + cnt e) (fun x => x = n + 1 + cnt e) rfl)
+              g2 (good_single (n + 1 + cnt e) (fun x => x = n + 1 + cnt e) rfl)
               (by intro x y a b; simp only [Where] at a; omega)
               (by intro x a; simp only [Where] at a; omega)
               (by intro x a; omega))
@@ -243,20 +243,18 @@ theorem labelsOK (s : Stmt) : LabelsOK s := by
           (by intro x y a b; omega)
           (by intro x a; simp only [Where]; omega)
           (by intro x a; simp only [Where]; omega)
-        simpa using this
       · exact ⟨Nat.le_refl _, good_nil _⟩
 
 /-- the labels of a flattened function body are pairwise distinct -/
 theorem flatten_labels_nodup_aux (body : Stmt) : (labels (flatten body)).Nodup := by
   unfold flatten
   split
-  · have h := noneOK_of body (labelsOK body) Ctx.top 1
-    rw [labels_case, labels_append]
+  · obtain ⟨_, g⟩ := noneOK_of body (labelsOK body) Ctx.top 1
     have ht : labels (if endsWithReturn body = true then ([] : List Instr) else [.ret]) = [] := by split <;> rfl
-    rw [ht, List.append_nil]
-    have := good_append (l1 := [0]) (fun _ => True) (good_single 0 (fun x => x = 0) rfl) h.2
-      (by intro x y a b; simp only [flat] at b; omega) (fun _ _ => trivial) (fun _ _ => trivial)
+    rw [labels_append, ht, List.append_nil, labels_case]
+    have := good_append (l1 := [0]) (fun _ => True) (good_single 0 (fun x => x = 0) rfl) g
+      (by intro x y a b; omega) (fun _ _ => trivial) (fun _ _ => trivial)
     exact this.2
-  · simp [labels, labelOf]
+  · simp [labels, List.filterMap, labelOf]
 
 end GV.Flat
